@@ -224,6 +224,7 @@ class ExprMixin:
             pass
         if sv is None:
             t = z3.Const(f"G_{name}", self.voc.Val)
+            self.add_global_fact(self.voc.fn("born", self.voc.Val, z3.IntSort())(t) == 0)
             pt = "any"
             if isinstance(value_ast, ast.Call) and isinstance(value_ast.func, ast.Name) and value_ast.func.id in self.repo.classes:
                 cname = value_ast.func.id
@@ -255,13 +256,18 @@ class ExprMixin:
         first = self.ev(vals[0], st, fr)
         res = first
         conds = []
+        parts = [first]
         for nxt in vals[1:]:
             c = self.truth(res)
             g = c if isinstance(node.op, ast.And) else z3.Not(c)
             conds.append(g)
             cur_guard = z3.And(conds) if len(conds) > 1 else conds[0]
             nv = self.under(st, cur_guard, lambda nxt=nxt: self.ev(nxt, st, fr))
+            parts.append(nv)
             res = self.ite(g, nv, res)
+        if all(p.pt == "bool" for p in parts):
+            ts = [p.t for p in parts]
+            return SV(z3.And(ts) if isinstance(node.op, ast.And) else z3.Or(ts), "bool")
         return res
 
     def ite(self, c, a: SV, b: SV) -> SV:
@@ -532,7 +538,8 @@ class ExprMixin:
             if m is not None:
                 return self.as_seq(self.call_function(m, [sv], {}, st, fr, node), st, fr, node)
         if sv.pt == "any":
-            raise Untranslatable(f"iteration over a value of unknown sort: {ast.unparse(node)[:60]}")
+            self.typing_assumptions += 1       # iterated value is viewed as a sequence
+            return SV(sv.t, "list")
         raise Untranslatable(f"iteration over {sv.pt}")
 
     def as_set(self, sv: SV, st, fr, node) -> SV:
